@@ -488,6 +488,13 @@ def r4_fixpoint_loops(ctx, chk, rule="C06.4"):
             continue
         if f.qual in sweeps:
             continue
+        # a helper that only the two sweeps call (directly or through other such helpers) carries *their* convergence loop:
+        # it is judged, inlined, by C01.4 / C02.3
+        def only_from_sweeps(g, seen=()):
+            cs = [c for c, _ in ctx.cg.callers_of(g)]
+            return bool(cs) and all(c.qual in sweeps or (c.qual not in seen and only_from_sweeps(c, seen + (g.qual,))) for c in cs)
+        if only_from_sweeps(f):
+            continue
         cls = f.cls.name if f.cls else None
         sx = SymX(ctx, f, cls, inline_depth=0).run()
         for L in sx.loops.values():
